@@ -106,6 +106,7 @@ def liveness():
     # --- simk
     sim = {}
     w = World()
+    w.procfs = "/proc"          # (the calibration probes the model under the real kernel's own path names)
     w.spawn(1, ppid=0, comm=b"init", start=1)
     p = w.spawn(500, ppid=1, comm=b"sleep", start=10)
     from .world import Mapping, FD
